@@ -366,7 +366,8 @@ def gen_rich(rng, P, serial=0):
     # is an anonymous span all the same and makes the paragraph's implicit duration indefinite), in a sequential division
     # where the next paragraph waits for it to end
     dv = add(doc, "div", body, tc="seq", tcattr=True)
-    p1 = add(doc, "p", dv, space="default")
+    # (under xml:space="preserve", explicit or inherited, the same white space is presented: Trace_Imsc!TVisible)
+    p1 = add(doc, "p", dv, space=rng.choice(["default", "default", "preserve", ""]))
     add(doc, "text", p1, tag=" ")
     sp1 = add(doc, "span", p1)
     v = rng.randint(1, 3)
@@ -436,6 +437,17 @@ BAD_TT = {
   X.qn(X.NS_ITTP, "aspectRatio"): ["", "16:9", "16 0", "abc"],
   X.qn(X.NS_TTP, "displayAspectRatio"): ["", "16:9", "16 0", "abc"],
 }
+# junk that is hostile to whoever REPORTS it (printf-style and brace formatting, escapes): malformed everywhere
+HOSTILE = ["%s", "10%", "%d %%", "{0}", "%(x)s", "\\", "%"]
+BAD_TIME.extend(HOSTILE)
+BAD_COLOR.extend(HOSTILE)
+BAD_TC.extend(HOSTILE[:3])
+BAD_SPACE.extend(HOSTILE[:3])
+for _k, _v in list(BAD_VALUES.items()):
+  if _v is not BAD_COLOR:
+    _v.extend(HOSTILE[:4])
+for _k, _v in BAD_TT.items():
+  _v.extend(HOSTILE[:3])
 UNKNOWN_ATTRS = [(X.qn(X.NS_TTS, "fooBar"), "x"), ("{urn:example:foreign}foo", "1"), ("foo", "1"),
                  (X.qn(X.NS_TTP, "unknownParameter"), "3"), (X.qn(X.NS_XML, "base"), "http://example.com/")]
 
